@@ -26,6 +26,7 @@ def gen_cases(cfg, out, simulate=None, timeout=3000, name=None):
 
 def replay(cases, outprefix, nproc=12, probe=True, timeout=3000):
     """Splits the case file over nproc harness processes; returns the merged report."""
+    require_lockable_memory()
     build_shim()
     binp = build_harness("nightly")
     procs = []
